@@ -114,15 +114,16 @@ _open_logs = {}
 
 def execute(case):
     tc, L, P, rpc = case["type"], case["L"], case["P"], case["rpc"]
-    key = (tc, L, P, rpc)
+    cached_from = case.get("cached_from")
+    key = (tc, L, P, rpc, cached_from)
     if key not in c02._cache:
         vfs.reset_log()
-        c02.opened(tc, L, P, rpc)
+        c02.opened(tc, L, P, rpc, cached_from=cached_from)
         _open_logs.clear()
         _open_logs[key] = list(vfs.LOG)
-    prod, da, twin, fname, im, ref = c02.opened(tc, L, P, rpc)
+    prod, da, twin, fname, im, ref = c02.opened(tc, L, P, rpc, cached_from=cached_from)
     fails = []
-    if case.get("check_open"):
+    if case.get("check_open") and cached_from is None:
         for b in check_open(_open_logs[key], fname, im, rpc):
             fails.append({"sig": {"kind": "open"}, "detail": f"{tc} {L}x{P} rpc={rpc}: {b}", "case": {**case, "ops": []}})
     n = n_loaded = n_agree = n_skip = 0
@@ -187,6 +188,13 @@ def plan(tier):
                         b["check_open"] = first
                         first = False
                         cases.append(b)
+                    # the same image opened through an index cache that was written and first used with another rpc
+                    if L >= 3 and P == 3:
+                        other = 1 if rpc > 1 else L
+                        reps = [["isel", r, c] for r in c02.ints(L) + c02.representatives(L) + [["s", a, b, None] for a in range(L) for b in range(a, L + 1)] for c in colreps[:2]]
+                        for b in c02.batches(tc, L, P, rpc, reps, size=800):
+                            b["cached_from"] = other
+                            cases.append(b)
     return cases
 
 
@@ -194,7 +202,8 @@ def run(res, tier, seed):
     res.rule = (
         "rows alphabet of C02 (all ints, slices, int arrays len<=2, masks) x 4 column representatives x rpc 1..L+1 x L 1..4|6 x both types;"
         " each load's mcfs:// event log is checked against byte spans computed by independent arithmetic; plus one"
-        " open_alos2 metadata-pass log per (type, L, P, rpc). A batch is non-trivial if at least one selection loads >= 1 line."
+        " open_alos2 metadata-pass log per (type, L, P, rpc); plus the same loads on an image opened through an index cache that was"
+        " written and first used with a different rpc (groups are those of the *requested* rpc). A batch is non-trivial if at least one selection loads >= 1 line."
     )
     res.assumptions = ["I/O is observed at the fsspec file-object level (open/seek/read), not at the OS level"]
     n = na = nskip = 0
